@@ -23,10 +23,10 @@ def obligations(tier):
     ]
     L = 3 if q else 4
     for first in range(12):
-        obs.append(Ob("C20.name.coercion/first-%d" % first, "crosshair", "harness.C20:name_coercion", T, param={"len": L, "first": first},
+        obs.append(Ob("C20.name.coercion/first-%d" % first, "crosshair", "harness.C20:name_coercion", T if q else 3000, param={"len": L, "first": first},
                       bounds="names of length 1..%d over the 12-character alphabet, first character = ALPHA[%d]; flags symbolic" % (L, first), encodes=ENC + ["html5lib/_ihatexml.py:InfosetFilter.coerceElement", "html5lib/_ihatexml.py:InfosetFilter.coerceAttribute"]))
     if not q:
         for first in range(12):
             obs.append(Ob("C20.name.injective/first-%d" % first, "crosshair", "harness.C20:name_injective", T, param={"first": first},
-                          bounds="pairs of names of length 1..3 over the 12-character alphabet, first name starting with ALPHA[%d]" % first, encodes=ENC[:1]))
+                          bounds="pairs of names (first of length 1..2 starting with ALPHA[%d], second of length 1..2 or a 3-character name ending in a doubled character) over the 12-character alphabet" % first, encodes=ENC[:1]))
     return obs
